@@ -49,3 +49,4 @@ CONSTANTS
  PeerWhileDisc = FALSE
  LateFrames = TRUE
  CrossVersion = FALSE
+ Restore = FALSE
